@@ -124,4 +124,54 @@ theorem dah_ofEds_roots {H : HashFn} {e : Eds} {dah : Dah} (h : Dah.ofEds H e = 
         simp only [List.getElem?_map, List.getElem?_range hi, Option.map_some, Option.some.injEq] at hx1
         exact ⟨x, hx1, hx2⟩
 
+/-! ### the byte strings hashed by `Dah.ofEds H e` (for relative collision-freeness, see `Proofs/Nmt.lean`) -/
+
+/-- inputs hashed for one axis tree: the leaf preimages `0x00 ‖ ns ‖ share` and the inner-node preimages -/
+def axisInputs (H : HashFn) (e : Eds) (ax : Axis) (i : Nat) : List Bytes :=
+  match e.axis? ax i with
+  | none => []
+  | some shares =>
+    shares.map (fun sh => leafInput sh.ns sh.data) ++
+      rootInputs H true (shares.length + 1) (shares.map (Share.leafHash H))
+
+/-- all inputs hashed when the DAH of the square is computed (every row and column tree), plus the empty string
+    (the preimage of the constant `EMPTY_ROOT` the verifiers compare against) -/
+def edsInputs (H : HashFn) (e : Eds) : List Bytes :=
+  [] :: (List.range e.width).flatMap (fun i => axisInputs H e .row i ++ axisInputs H e .col i)
+
+theorem nil_mem_edsInputs (H : HashFn) (e : Eds) : ([] : Bytes) ∈ edsInputs H e := by simp [edsInputs]
+
+theorem axisInputs_mem_eds {H : HashFn} {e : Eds} {ax : Axis} {i : Nat} (hi : i < e.width) {y : Bytes}
+    (hy : y ∈ axisInputs H e ax i) : y ∈ edsInputs H e := by
+  unfold edsInputs
+  apply List.mem_cons_of_mem
+  rw [List.mem_flatMap]
+  refine ⟨i, List.mem_range.mpr hi, ?_⟩
+  cases ax
+  · exact List.mem_append_left _ hy
+  · exact List.mem_append_right _ hy
+
+/-- the leaf hashes of an axis are leaf hashes whose preimages are among the axis inputs -/
+theorem axis_allLeafOn {H : HashFn} {e : Eds} {ax : Axis} {i : Nat} {shares : List Share}
+    (hax : e.axis? ax i = some shares) (hsz : ∀ sh ∈ shares, NS_SIZE ≤ sh.data.length) :
+    AllLeafOn H (fun y => y ∈ axisInputs H e ax i) (shares.map (Share.leafHash H)) := by
+  intro x hx
+  obtain ⟨sh, hsh, rfl⟩ := List.mem_map.mp hx
+  refine ⟨sh.ns, sh.data, ?_, rfl, ?_⟩
+  · unfold Share.ns
+    split
+    · simp [parityNs, maxNsId]
+    · have := hsz sh hsh
+      simp [List.length_take]; omega
+  · unfold axisInputs; rw [hax]
+    exact List.mem_append_left _ (List.mem_map.mpr ⟨sh, hsh, rfl⟩)
+
+theorem axis_rootInputs_mem {H : HashFn} {e : Eds} {ax : Axis} {i : Nat} {shares : List Share}
+    (hax : e.axis? ax i = some shares) {y : Bytes}
+    (hy : y ∈ rootInputs H true ((shares.map (Share.leafHash H)).length + 1) (shares.map (Share.leafHash H))) :
+    y ∈ axisInputs H e ax i := by
+  unfold axisInputs; rw [hax]
+  apply List.mem_append_right
+  simpa using hy
+
 end Lumina.Proofs.Eds
